@@ -438,6 +438,20 @@ Spans of submodels differ:
 
             return check_values
 
+        # Error if `offset` points outside the current linker span
+        if offset:
+            t_check = t
+            if t_check < 0:
+                t_check += len(self.span)
+
+            if not 0 <= t_check + offset < len(self.span):
+                raise IndexError(
+                    f'`offset` argument ({offset}) for position `t` ({t}) '
+                    f'implies a period outside the span of the current linker instance: '
+                    f'{offset} + {t} -> position {offset + t_check}, '
+                    f'with {len(self.span)} periods in span'
+                )
+
         status = SolutionStatus.UNSOLVED.value
         current_values = get_check_values()
 
@@ -450,6 +464,19 @@ Spans of submodels differ:
                 raise KeyError(f"'{name}' not found in list of submodels") from e
 
             submodel.iterations[t] = 0
+
+        # Optionally copy initial values from another period (as in
+        # `BaseModel.solve_t()`), for the linker and the submodels to solve
+        if offset:
+            for name in self.endogenous:
+                self.__dict__['_' + name][t] = self.__dict__['_' + name][t + offset]
+
+            for name in submodels:
+                submodel = self.__dict__['submodels'][name]
+                for variable in submodel.endogenous:
+                    submodel[variable][t] = submodel[variable][t + offset]
+
+            current_values = get_check_values()
 
         # Run any code prior to solution
         self.solve_t_before(
